@@ -37,10 +37,11 @@ type ackCfg struct {
 	Preload int // entries already stored before the worker is bound
 	Async   bool
 	CtxAt   int // >0: the worker has a context which is cancelled after this many virtual microseconds
+	Prods   int // >1: that many goroutines submit at the same time through the same queue object
 }
 
 func (c ackCfg) String() string {
-	return fmt.Sprintf("ack qk=%v conc=%d n=%d preload=%d failEnq=%v failDeq=%v failAck=%v async=%v ctxAt=%d out=%v", c.QK, c.Conc, c.N, c.Preload, c.FailEnq, c.FailDeq, c.FailAck, c.Async, c.CtxAt, c.Out)
+	return fmt.Sprintf("ack qk=%v conc=%d n=%d preload=%d failEnq=%v failDeq=%v failAck=%v async=%v ctxAt=%d prods=%d out=%v", c.QK, c.Conc, c.N, c.Preload, c.FailEnq, c.FailDeq, c.FailAck, c.Async, c.CtxAt, c.Prods, c.Out)
 }
 
 func drawAck(r *Rng) ackCfg {
@@ -64,6 +65,9 @@ func drawAck(r *Rng) ackCfg {
 	c.Async = r.Chance(30)
 	if r.Chance(25) {
 		c.CtxAt = 1 + r.Intn(30)
+	}
+	if r.Chance(30) {
+		c.Prods = 2 + r.Intn(2)
 	}
 	return c
 }
@@ -133,8 +137,24 @@ func epAck(c *RunCtx, cfg ackCfg) *Result {
 				emu.Unlock()
 			}
 		}()
+		if cfg.Prods > 1 {
+			var pwg sync.WaitGroup
+			for p := 0; p < cfg.Prods; p++ {
+				pwg.Add(1)
+				go func() {
+					defer pwg.Done()
+					for i := cfg.Preload + p; i < cfg.N; i += cfg.Prods {
+						k.Add(q, i)
+					}
+				}()
+			}
+			pwg.Wait()
+		} else {
+			for i := cfg.Preload; i < cfg.N; i++ {
+				k.Add(q, i)
+			}
+		}
 		for i := cfg.Preload; i < cfg.N; i++ {
-			k.Add(q, i)
 			if k.Recs[i].OK {
 				accepted[i] = true
 			}
@@ -308,7 +328,7 @@ type distCfg struct {
 	Work      []time.Duration
 	Async     bool
 	Gated     bool
-	SlowSub   bool // Subscribe takes virtual time
+	SlowSub   bool  // Subscribe takes virtual time
 	FailDeq   []int // transient refusals of the k-th dequeue call
 	Bad       int   // malformed entries stored before the first consumer binds
 }
@@ -507,6 +527,8 @@ func runC11(c *RunCtx) {
 
 func runC13(c *RunCtx) {
 	notifyProgramsK(c, 32, 160, true)
+	// further distributed queues are bound to a consumer that is draining, under every strategy
+	bindStormPrograms(c, 32, 160, true)
 	for v := 0; v < c.Q(96, 600); v++ {
 		c.Program(fmt.Sprintf("dist/%d", v), func(p *Prog) {
 			cfg := drawDist(p.Rng)
